@@ -44,9 +44,10 @@ const CP_SEED: [u8; 32] = [3u8; 32]; // commitment seed of make_test_counterpart
 fn holder_content(id: u64) -> (u64, u64) {
     match id {
         0..=3 => (VALUE - 1000 - 100 * id, 0),
-        4..=7 => (
-            1_000_000 + 10_000 * (id - 4),
-            VALUE - 20_000 - (1_000_000 + 10_000 * (id - 4)) - HTLC_SAT * n_htlcs(id),
+        // (content 8 is content 7 with another expiry on its second HTLC: same balances, same amounts, same hashes)
+        4..=8 => (
+            1_000_000 + 10_000 * (id.min(7) - 4),
+            VALUE - 20_000 - (1_000_000 + 10_000 * (id.min(7) - 4)) - HTLC_SAT * n_htlcs(id),
         ),
         _ => (VALUE - 1000 - 100, 100),
     }
@@ -57,20 +58,24 @@ const HTLC_SAT: u64 = 10_000;
 fn n_htlcs(id: u64) -> u64 {
     match id {
         6 => 1,
-        7 => 2,
+        7 | 8 => 2,
         _ => 0,
     }
 }
 /// HTLCs the node receives in content `id`
 fn incoming_htlcs(id: u64) -> Vec<HTLCInfo2> {
     (0..n_htlcs(id))
-        .map(|k| HTLCInfo2 { value_sat: HTLC_SAT, payment_hash: PaymentHash([0x40 + k as u8; 32]), cltv_expiry: 1000 + k as u32 })
+        .map(|k| HTLCInfo2 {
+            value_sat: HTLC_SAT,
+            payment_hash: PaymentHash([0x40 + k as u8; 32]),
+            cltv_expiry: if id == 8 && k == 1 { 1500 } else { 1000 + k as u32 },
+        })
         .collect()
 }
 fn content_ok(id: u64, n: u64) -> bool {
     match id {
         0..=3 => true,
-        4..=7 => n > 0,
+        4..=8 => n > 0,
         _ => false,
     }
 }
@@ -87,6 +92,10 @@ fn content_id_of(info: &CommitmentInfo2, holder: bool) -> u64 {
     };
     for id in 0..10 {
         if holder_content(id) == (to_holder, to_cp) {
+            // 7 and 8 differ in the expiry of an HTLC only
+            if id == 7 && info.received_htlcs.iter().chain(info.offered_htlcs.iter()).any(|h| h.cltv_expiry == 1500) {
+                return 8;
+            }
             return id;
         }
     }
@@ -706,7 +715,7 @@ fn do_op(sys: &mut Sys, rng: &mut Rng, extremes: bool, script: Option<(u64, u64)
         // ---- holder validation (direct, phase 2)
         0..=17 => {
             let n = near(rng, next);
-            let id = if n == 0 { rng.below(3) } else { 4 + rng.below(4) };
+            let id = if n == 0 { rng.below(3) } else { 4 + rng.below(5) };
             let id = if !guided && rng.chance(1, 10) { 9 } else { id };
             let id = if n.wrapping_add(1) == next && rng.chance(2, 3) {
                 est.as_ref().and_then(|e| e.current_holder_commit_info.as_ref()).map(|i| content_id_of(i, true)).unwrap_or(id)
@@ -857,7 +866,7 @@ fn do_op(sys: &mut Sys, rng: &mut Rng, extremes: bool, script: Option<(u64, u64)
         }
         51..=52 => {
             let n = near(rng, next);
-            let id = if n == 0 { rng.below(3) } else { 4 + rng.below(4) };
+            let id = if n == 0 { rng.below(3) } else { 4 + rng.below(5) };
             let id = if n.wrapping_add(1) == next && rng.chance(1, 2) {
                 est.as_ref().and_then(|e| e.current_holder_commit_info.as_ref()).map(|i| content_id_of(i, true)).unwrap_or(id)
             } else {
@@ -887,13 +896,15 @@ fn do_op(sys: &mut Sys, rng: &mut Rng, extremes: bool, script: Option<(u64, u64)
             let pt_num = if decoy { n.wrapping_add(7) % 40 } else if rogue { 3000 + n % 40 } else { n % 40 };
             let pt = point_of(&sys.secp, &secret_of_code(pt_num));
             let pt_id = 1000 + pt_num;
-            let id = if n == 0 { rng.below(3) } else { 4 + rng.below(4) };
+            let id = if n == 0 { rng.below(3) } else { 4 + rng.below(5) };
             let id = if rng.chance(1, 10) { 9 } else { id };
             let id = if n.wrapping_add(1) == next_c && rng.chance(2, 3) {
                 est.as_ref().and_then(|e| e.current_counterparty_commit_info.as_ref()).map(|i| content_id_of(i, false)).unwrap_or(id)
             } else {
                 id
             };
+            // a re-sign request that differs from what was signed in the expiry of one HTLC only
+            let id = if n.wrapping_add(1) == next_c && (id == 7 || id == 8) && rng.chance(1, 3) { 15 - id } else { id };
             let pol_ok = content_ok(id, n);
             let (to_h, to_c) = cp_content(id);
             // three routes to the same request: the phase-1 entry point, the protocol message
@@ -1010,7 +1021,7 @@ fn do_op(sys: &mut Sys, rng: &mut Rng, extremes: bool, script: Option<(u64, u64)
         // ---- handler composites through real protocol messages
         84..=91 => {
             let n = near(rng, next);
-            let id = if n == 0 { rng.below(3) } else { 4 + rng.below(4) };
+            let id = if n == 0 { rng.below(3) } else { 4 + rng.below(5) };
             let sig_ok = guided || !rng.chance(1, 6);
             let pol_ok = content_ok(id, n);
             let (to_h, to_c) = holder_content(id);
